@@ -321,11 +321,11 @@ def gen_case(r: random.Random) -> Dict[str, Any]:
         lab = r.choice(pool + ["unknown", "false_positive"]) if r.random() < 0.4 else r.choice(target)
         x, y = place(lab)
         raw = r.choice(RAW_NAMES[lab])
-        g = O.obj3d(x, y, r.uniform(-1, 1), O.rand_yaw(r), lab=lab, uuid=f"g{k}", npts=r.choice([0, 1, 4, 5, 19, 20, 100]), attributes=r.choice(ATTR_POOL), raw_name=raw)
+        g = O.obj3d(x, y, r.uniform(-1, 1) if r.random() > 0.15 else r.choice([-1, 1]) * r.uniform(5.0, 20.0), O.rand_yaw(r), lab=lab, uuid=f"g{k}", npts=r.choice([0, 1, 4, 5, 19, 20, 100]), attributes=r.choice(ATTR_POOL), raw_name=raw)
         objs_gt.append(g)
         lab_e = r.choice(pool + ["unknown"]) if r.random() < 0.4 else (lab if lab != "false_positive" else r.choice(target))
         xe, ye = (x + r.gauss(0, 0.5), y + r.gauss(0, 0.5)) if r.random() < 0.7 else place(lab_e)
-        objs_est.append(O.obj3d(xe, ye, 0.0, O.rand_yaw(r), lab=lab_e, score=round(r.random(), 3), uuid=f"e{k}", attributes=r.choice(ATTR_POOL), raw_name=r.choice(RAW_NAMES[lab_e])))
+        objs_est.append(O.obj3d(xe, ye, 0.0 if r.random() > 0.15 else r.choice([-1, 1]) * r.uniform(5.0, 20.0), O.rand_yaw(r), lab=lab_e, score=round(r.random(), 3), uuid=f"e{k}", attributes=r.choice(ATTR_POOL), raw_name=r.choice(RAW_NAMES[lab_e])))
     if frame == "map":
         objs_gt = [O.to_map(o, *ego) for o in objs_gt]
         objs_est = [O.to_map(o, *ego) for o in objs_est]
